@@ -81,6 +81,11 @@ func (a *API) SearchPromises(id string, state string, tags map[string]string, li
 			return nil, RequestValidationError(err)
 		}
 
+		// the cursor is client supplied, validate what it carries
+		if cursor.Next == nil || cursor.Next.Id == "" || cursor.Next.States == nil || cursor.Next.Limit < 1 || cursor.Next.Limit > 100 {
+			return nil, RequestValidationError(errors.New("The field cursor is invalid."))
+		}
+
 		return cursor.Next, nil
 	}
 
@@ -146,6 +151,11 @@ func (a *API) SearchSchedules(id string, tags map[string]string, limit int, curs
 		cursor, err := t_api.NewCursor[t_api.SearchSchedulesRequest](cursor)
 		if err != nil {
 			return nil, RequestValidationError(err)
+		}
+
+		// the cursor is client supplied, validate what it carries
+		if cursor.Next == nil || cursor.Next.Id == "" || cursor.Next.Limit < 1 || cursor.Next.Limit > 100 {
+			return nil, RequestValidationError(errors.New("The field cursor is invalid."))
 		}
 
 		return cursor.Next, nil
